@@ -20,7 +20,7 @@ ID = "C09"
 LEVEL = "proof"
 PROPS_FILE = "C09.v"
 RUN_MODULE = "RunC09"
-TRANSLATOR_UNITS = []
+TRANSLATOR_UNITS = ["repro"]
 SHARD = 125
 RULE = ("dom/names: seeded random designs (module trees of depth<=3, 3-13 signals — unsigned, signed, enum-shaped, "
         "attribute-carrying, widths 1-12 — with names drawn from a pool of 11 (+5 `$`-suffixed ones in half of the designs) so "
